@@ -4,6 +4,7 @@ import (
 	"fmt"
 	"go/token"
 	"go/types"
+	"sort"
 	"strings"
 
 	"golang.org/x/tools/go/ssa"
@@ -61,7 +62,9 @@ func checkC03(p *Prog, res *Result, tier string) {
 	}
 	sub7 := p.subResult("C07", tier)
 	for _, o := range sub7.Obls {
-		if o.Rule == "C07-R1" {
+		// .. and a key whose superseded version could not be deleted keeps its deletion marker (C07-R4, C07-R3):
+		// otherwise the old version reads as live again
+		if o.Rule == "C07-R1" || o.Rule == "C07-R4" || o.Rule == "C07-R3" {
 			res.add("C03-R1", o.Rule+" "+o.Construct, o.Status, o.Pos, o.Detail)
 		}
 	}
@@ -82,6 +85,98 @@ func checkC03(p *Prog, res *Result, tier string) {
 		res.ok("C03-R2", "marker variable "+ts.global.Name()+": written only by its initialiser", p.pos(ts.global.Pos()), "single store in the package initialiser")
 	} else {
 		res.bad("C03-R2", "marker variable "+ts.global.Name()+": written only by its initialiser", p.pos(ts.global.Pos()), "the deletion marker is reassigned at run time: records written before and after disagree")
+	}
+	// the fields the marker travels through (configuration copies): every store into one of them is the marker, and
+	// every literal of the owning struct sets it - a literal that leaves it out compares stored values with nil, so
+	// that reader takes deletion markers for live values
+	{
+		var flds []*types.Var
+		for fv := range ts.fields {
+			flds = append(flds, fv)
+		}
+		sort.Slice(flds, func(i, j int) bool { return flds[i].Pkg().Path()+flds[i].Name() < flds[j].Pkg().Path()+flds[j].Name() })
+		owner := func(fv *types.Var) types.Type {
+			for _, pk := range p.Pkgs {
+				if pk.Types != fv.Pkg() {
+					continue
+				}
+				for _, name := range pk.Types.Scope().Names() {
+					tn, ok := pk.Types.Scope().Lookup(name).(*types.TypeName)
+					if !ok {
+						continue
+					}
+					st, ok := tn.Type().Underlying().(*types.Struct)
+					if !ok {
+						continue
+					}
+					for i := 0; i < st.NumFields(); i++ {
+						if st.Field(i) == fv {
+							return tn.Type()
+						}
+					}
+				}
+			}
+			return nil
+		}
+		for _, fv := range flds {
+			T := owner(fv)
+			if T == nil {
+				continue
+			}
+			tname := types.TypeString(T, func(pk *types.Package) string { return strings.TrimPrefix(pk.Path(), modPath+"/") })
+			for i, st := range p.fields().stores[fv] {
+				construct := fmt.Sprintf("%s.%s: store #%d is the deletion marker", tname, fv.Name(), i+1)
+				if ts.is(st.Val) {
+					res.ok("C03-R2", construct, p.pos(st.Pos()), "the marker variable or a configuration field fed from it")
+				} else {
+					res.bad("C03-R2", construct, p.pos(st.Pos()), "a configuration field that readers compare stored values with is set to something other than the deletion marker")
+				}
+			}
+			for _, f := range p.AllFuncs {
+				if f.Synthetic != "" {
+					continue
+				}
+				n := 0
+				for _, b := range f.Blocks {
+					for _, ins := range b.Instrs {
+						al, ok := ins.(*ssa.Alloc)
+						if !ok || !types.Identical(al.Type().(*types.Pointer).Elem(), T) {
+							continue
+						}
+						nStores, sets := 0, false
+						for _, ref := range *al.Referrers() {
+							if fa, ok := ref.(*ssa.FieldAddr); ok {
+								for _, r2 := range *fa.Referrers() {
+									if st, ok := r2.(*ssa.Store); ok && st.Addr == ssa.Value(fa) {
+										nStores++
+										if fieldOf(fa) == fv {
+											sets = true
+										}
+									}
+								}
+							}
+						}
+						// a whole-value copy into the variable (cfg := other) carries the field along
+						whole := false
+						for _, ref := range *al.Referrers() {
+							if st, ok := ref.(*ssa.Store); ok && st.Addr == ssa.Value(al) {
+								whole = true
+							}
+						}
+						if nStores == 0 || whole {
+							continue
+						}
+						n++
+						construct := fmt.Sprintf("%s: literal of %s #%d sets %s", funcName(f), tname, n, fv.Name())
+						if sets {
+							res.ok("C03-R2", construct, p.pos(al.Pos()), "field set")
+						} else {
+							res.bad("C03-R2", construct, p.pos(al.Pos()), "this construction of "+tname+" leaves "+fv.Name()+" unset: the reader configured by it compares stored values with nil instead of the deletion marker - deleted keys come back as live values on this path only (its sibling literals set the field)")
+						}
+					}
+				}
+			}
+		}
 	}
 	// recognition sites: bytes.Equal / bytes.Compare between a stored value and a package variable / config field
 	isStoredValue := func(v ssa.Value) bool {
